@@ -225,7 +225,8 @@ def bad_positions(L):
 def tree_positions(ref, j):
     a, b = ref.bps[j], ref.bps[j + 1]
     c = math.nextafter(b, -math.inf)
-    return [a, (a + b) / 2, c if c >= a else a]
+    m = a + (b - a) / 2
+    return [a, m if a <= m < b else a, c if c >= a else a]
 
 
 class Machine:
@@ -582,6 +583,70 @@ def enum_regimes(tier, seed):
     for scale in ("ulp", "huge", "tiny", "ulp_odd"):
         for sl in (True, False):
             yield dict(kind="coords", scale=scale, sample_lists=sl)
+    # more than 2^16 nodes; more than 4096 edges with a last tree that starts before the middle of the genome
+    for k in ([66000] if tier == "quick" else [65534, 65535, 66000, 140000]):
+        yield dict(kind="big_nodes", k=k, sample_lists=False)
+    for T in ([1500] if tier == "quick" else [1365, 1400, 1500, 3000]):
+        for sl in (True, False):
+            yield dict(kind="long_last", T=T, sample_lists=sl)
+
+
+def lean_history(ctx, tskit, spec, ts, opts, ops):
+    """For sequences of thousands of trees: after every operation the Tree is compared with a fresh Tree at the same
+    index (parent, children as sets, sample counts, roots, interval, sample lists) and with the positional parent map;
+    positions and indexes in `ops` are literal."""
+    import bisect
+
+    bps = model.breakpoints(spec)
+    T = len(bps) - 1
+    n = len(spec["nodes"])
+    tree = tskit.Tree(ts, sample_lists=opts["sample_lists"])
+    i = -1
+    for k, op in enumerate(ops):
+        name = op[0]
+        if name == "seek":
+            tree.seek(op[1])
+            i = bisect.bisect_right(bps, op[1]) - 1
+        elif name == "seek_index":
+            tree.seek_index(op[1])
+            i = op[1] % T
+        elif name == "first":
+            tree.first()
+            i = 0
+        elif name == "last":
+            tree.last()
+            i = T - 1
+        elif name == "clear":
+            tree.clear()
+            i = -1
+        elif name == "next":
+            ret = tree.next()
+            i = 0 if i == -1 else (i + 1 if i < T - 1 else -1)
+            ctx.check(ret is (i != -1), "next_return", f"step {k}: next() returned {ret!r} entering index {i}")
+        elif name == "prev":
+            ret = tree.prev()
+            i = T - 1 if i == -1 else (i - 1 if i > 0 else -1)
+            ctx.check(ret is (i != -1), "prev_return", f"step {k}: prev() returned {ret!r} entering index {i}")
+        what = f"step {k} {op} -> index {i}"
+        ctx.check(tree.index == i, "index", f"{what}: index {tree.index}")
+        if i == -1:
+            ctx.check(tree.num_edges == 0 and all(p == -1 for p in tree.parent_array[:n]), "null_state",
+                      f"{what}: the null tree has edges")
+            continue
+        fresh = ts.at_index(i, sample_lists=opts["sample_lists"])
+        ctx.check(tuple(tree.interval) == (bps[i], bps[i + 1]) == tuple(fresh.interval), "state_vs_fresh_tree",
+                  f"{what}: interval {tree.interval}")
+        par = model.parent_at(spec, bps[i])
+        ctx.eq(list(map(int, tree.parent_array[:n])), par, f"state_vs_table_model {what}: parent_array")
+        for arr in ("parent_array", "num_children_array", "edge_array"):
+            ctx.eq(getattr(tree, arr), getattr(fresh, arr), f"state_vs_fresh_tree {what}: {arr}")
+        ctx.eq(sorted(tree.roots), sorted(fresh.roots), f"state_vs_fresh_tree {what}: roots")
+        ctx.check(tree.num_edges == fresh.num_edges, "state_vs_fresh_tree", f"{what}: num_edges")
+        for u in list(fresh.roots) + [u for u in range(0, n, max(1, n // 50))]:
+            ctx.check(tree.num_samples(u) == fresh.num_samples(u), "state_vs_fresh_tree", f"{what}: num_samples({u})")
+            ctx.check(sorted(tree.children(u)) == sorted(fresh.children(u)), "state_vs_fresh_tree", f"{what}: children({u})")
+            if opts["sample_lists"]:
+                ctx.check(sorted(tree.samples(u)) == sorted(fresh.samples(u)), "state_vs_fresh_tree", f"{what}: samples({u})")
 
 
 def run_regimes(case, ctx):
@@ -594,7 +659,32 @@ def run_regimes(case, ctx):
     from . import c01
 
     ctx.nt(True)
-    if case["kind"] == "hops":
+    if case["kind"] == "big_nodes":
+        from ._shapes import two_tree_spec
+
+        spec = two_tree_spec("star", "multiroot", case["k"], internal_samples=False)
+        ops = [["last"], ["prev"], ["prev"], ["first"], ["next"], ["clear"], ["first"], ["next"], ["next"], ["last"],
+               ["next"], ["seek_index", 0], ["clear"], ["seek_index", 1], ["prev"], ["prev"], ["last"], ["seek", 0.0],
+               ["next"], ["next"], ["prev"], ["first"]]
+        ts = gen.build_tables(spec, tskit).tree_sequence()
+        lean_history(ctx, tskit, spec, ts, dict(sample_lists=case["sample_lists"]), ops)
+        return
+    elif case["kind"] == "long_last":
+        T = case["T"]
+        spec = c01.many_trees_spec(T, 0)
+        for e in spec["edges"]:
+            if e[1] == float(T):
+                e[1] = float(3 * T)
+        spec["L"] = float(3 * T)
+        x = float(T - 1)
+        ops = [["seek", x], ["clear"], ["seek_index", T - 1], ["clear"], ["seek", x - 0.5], ["prev"], ["clear"],
+               ["seek", 2.5 * T], ["clear"], ["seek", x - 1.5], ["next"], ["next"], ["clear"], ["last"], ["clear"],
+               ["seek", x + 1], ["seek", 3.5], ["clear"], ["seek_index", T - 2], ["next"], ["clear"], ["seek_index", -1],
+               ["first"], ["seek", x], ["clear"], ["seek", 1.4 * T], ["prev"], ["prev"], ["clear"], ["seek", 1.6 * T]]
+        ts = gen.build_tables(spec, tskit).tree_sequence()
+        lean_history(ctx, tskit, spec, ts, dict(sample_lists=case["sample_lists"]), ops)
+        return
+    elif case["kind"] == "hops":
         T = case["T"]
         spec = c01.many_trees_spec(T, 1)
         ops = [["seek_index", T - 1], ["seek_index", 2], ["seek_index", T - 3], ["seek_index", T // 2], ["seek_index", 1],
